@@ -34,6 +34,18 @@ func jsonOf(x interface{}) string {
 
 var _ = time.Now
 
+// childMains are one-shot child processes (dtnmc child <kind> <json>).
+var childMains = map[string]func(arg string){}
+
+// ChildMain dispatches a child process.
+func ChildMain(kind, arg string) {
+	if f, ok := childMains[kind]; ok {
+		f(arg)
+		return
+	}
+	panic("unknown child kind " + kind)
+}
+
 // WorkerMain is the entry point of worker sub-processes (see pool.go).
 func WorkerMain() { workerMain() }
 
